@@ -976,6 +976,35 @@ for fmt, magic in [('ANM_12', '!anmmap'), ('STD_12', '!stdmap'), ('ECL_08', '!ec
     ins_999(5);
 ''')
 
+# (g) every statement position that carries an expression, with an ill-typed / odd expression in it,
+#     and call syntaxes that exist in the grammar but are not implemented
+ILL = ['1.5 + "a"', '"str"', '2.5', 'S', 'F0 + 1', '1 / 0', '-(2147483647 + 1)', 'I0', 'sin(1)', '(1 : 2 : 3 : 4)']
+POS = [('rel-time', '+(%s):'), ('interrupt', 'interrupt[%s]:'), ('times', 'times(%s) { nop(); }'), ('if', 'if (%s) { nop(); }'),
+       ('while', 'while (%s) { nop(); }'), ('arg', 'ins_23(%s, %s, %s);'), ('assign', 'I0 = %s;'), ('assign-f', 'F0 = %s;'),
+       ('decl', 'int zz = %s;'), ('ternary', 'I0 = (%s) ? 1 : 2;'), ('unop', 'I0 = -(%s);'), ('cast', 'I0 = _S(%s);')]
+for fmt in ['ECL_06', 'ANM_12']:
+    for pname, tpl in POS:
+        body = ''.join('    ' + (tpl % ((e,) * tpl.count('%s'))) + '\n' for e in [ILL[(sum(map(ord, pname)) + 3 * k) % len(ILL)] for k in range(3)])
+        # one statement per item would be 240 items; three per item, each in its own sub/script so that
+        # one error does not hide the others
+        add('feature/%s-illtyped-%s' % (fmt.lower().replace('_', ''), pname), fmt, items='const string S = "x";\n', main_body=body)
+    add('feature/%s-unimplemented-calls' % fmt.lower().replace('_', ''), fmt, main_body='''
+    @foo(1, 2);
+    foo(1) async;
+    @bar() async 3;
+    nop(@blob="00000000");
+''')
+    add('feature/%s-label-arg-out-of-range' % fmt.lower().replace('_', ''), fmt, mapfiles=[('!eclmap' if fmt.startswith('ECL') else '!anmmap') + '\n!ins_signatures\n700 s\n701 b\n'], main_body='''
+    ins_700(timeof(far));
+    ins_701(offsetof(far));
++30000:
+    nop();
++30000:
+    nop();
+far:
+    nop();
+''')
+
 # --- seeded generated programs (tools/gen_programs.py): ids gen/<profile>-<k>, tag 'gen'
 import gen_programs
 for g in gen_programs.generate():
